@@ -73,11 +73,16 @@ def convert(h, seed):
         elif a == "finish":
             put({"op": "finish", "id": x})
         elif a == "rebuy":
-            put({"op": "reserve", "id": x, "seat": -1, "chips": stack})
+            if slot.startswith("g:open.retry"):
+                # the engine is parked with its lock held: only the call that takes no lock can land here (PlayerRedeemChips)
+                put({"op": "redeem", "id": x, "chips": stack})
+            else:
+                put({"op": "reserve", "id": x, "seat": -1, "chips": stack})
         elif a == "sitin":
             put({"op": "join", "id": x})
         elif a == "leave":
-            put({"op": "leaveout", "ids": [x]})
+            if not slot.startswith("g:open.retry"):
+                put({"op": "leaveout", "ids": [x]})
         elif a == "addon":
             put({"op": "redeem", "id": x, "chips": 1 + (i % 5)})
         elif a == "blind":
